@@ -45,6 +45,7 @@ class Engine:
         import pymoca.parser  # noqa: F401  (antlr import, shared copy-on-write)
 
         core.install_clock_seam()
+        core.install_lock_seam(procs.repo_root())
         sqlshim.install()
         util.silence_antlr()
 
